@@ -15,8 +15,8 @@ INF = float("inf")
 # program generator
 
 
-def _valid_cfg(rng):
-    mx = rng.choice([1, 1, 2, 2, 3])
+def _valid_cfg(rng, big=False):
+    mx = rng.choice([1, 1, 2, 2, 3, 4, 5] if big else [1, 1, 2, 2, 3])
     mn = rng.choice([0, 0, 1, mx, rng.randrange(0, mx + 1)])
     qs = rng.choice([0, 0, 0, 0, 1, 2])
     to = rng.choice([0.5, 2.0, 2.0, 8.0])
@@ -28,8 +28,8 @@ WEIRD_MIN = [-1, -7, 5, 2.5, 0.5, "1", True]
 WEIRD_QS = [-1, "x", None, 1.5, "2"]
 
 
-def gen_cfg(rng, weird):
-    cfg = _valid_cfg(rng)
+def gen_cfg(rng, weird, big=False):
+    cfg = _valid_cfg(rng, big)
     if weird:
         which = rng.randrange(3)
         if which == 0:
@@ -79,18 +79,21 @@ def _task(rng, to, gates=True):
     return op
 
 
-def gen_mixed(rng, focus=None):
+def gen_mixed(rng, focus=None, tier="quick"):
     weird = rng.random() < (0.15 if focus == "C10" else 0.03)
-    cfg = gen_cfg(rng, weird)
+    cfg = gen_cfg(rng, weird, tier == "thorough")
     to = cfg["timeout"]
     eff = effective(cfg)
     nctl = rng.randint(2, 9)
     ctl = []
     running = False
     nenq = 0
-    wl = {"start": 3, "stop": 2, "enq": 6, "res": 2, "join": 2, "sleep": 2, "open": 1}
+    wl = {"start": 3, "stop": 2, "enq": 6, "res": 2, "join": 2, "sleep": 2, "open": 1, "clear": 0}
     if focus == "C11":
-        wl.update({"stop": 4, "join": 5, "start": 4})
+        wl.update({"stop": 4, "join": 5, "start": 4, "clear": 1})
+    big = tier == "thorough"
+    if big:
+        nctl = rng.randint(2, 14)
     names = sorted(wl)
     weights = [wl[n] for n in names]
     for _ in range(nctl):
@@ -114,10 +117,12 @@ def gen_mixed(rng, focus=None):
                 ctl.append(["join", rng.choice([0, 0.5, to, 2 * to])])
         elif name == "sleep":
             ctl.append(["sleep", rng.choice([to / 2, to, 2 * to, 3.0])])
+        elif name == "clear":
+            ctl.append(["clear"])
         else:
             ctl.append(["open", rng.randrange(2)])
     threads = [ctl]
-    for _ in range(rng.choice([0, 0, 1, 1, 2])):
+    for _ in range(rng.choice([0, 0, 1, 1, 2, 3] if big else [0, 0, 1, 1, 2])):
         ops = []
         n = 0
         for _ in range(rng.randint(1, 4)):
@@ -140,8 +145,8 @@ def gen_mixed(rng, focus=None):
     return prog
 
 
-def gen_growth(rng):
-    cfg = _valid_cfg(rng)
+def gen_growth(rng, tier="quick"):
+    cfg = _valid_cfg(rng, tier == "thorough")
     cfg["qsize"] = rng.choice([0, 0, 0, 4])
     to = cfg["timeout"]
     mx = cfg["max"]
@@ -189,11 +194,44 @@ def gen_growth(rng):
     return {"family": "growth", "cfg": cfg, "threads": threads}
 
 
-def gen_program(rng, focus=None):
+def gen_restart(rng, tier="quick"):
+    """Lifecycle-structured programs: work, stop, (work while stopped), restart, work."""
+    cfg = _valid_cfg(rng, tier == "thorough")
+    if rng.random() < 0.5:
+        cfg["max"] = 1
+        cfg["min"] = rng.choice([0, 1])
+    cfg["qsize"] = 0
+    to = cfg["timeout"]
+    ctl = []
+    for _ in range(rng.randint(0, 2)):
+        ctl.append(_task(rng, to, gates=False))
+    ctl.append(["start"])
+    for _ in range(rng.randint(0, 3)):
+        ctl.append(_task(rng, to, gates=False))
+    if rng.random() < 0.4:
+        ctl.append(["sleep", rng.choice([to / 2, to, 2 * to])])
+    ctl.append(["stop"])
+    for _ in range(rng.randint(0, 3)):
+        ctl.append(_task(rng, to, gates=False))
+    ctl.append(["start"])
+    for _ in range(rng.randint(1, 4)):
+        ctl.append(_task(rng, to, gates=False))
+    if rng.random() < 0.3:
+        ctl.append(["join", rng.choice([None, to])])
+    threads = [ctl]
+    if rng.random() < 0.3:
+        threads.append([_task(rng, to, gates=False) for _ in range(rng.randint(1, 3))])
+    return {"family": "mixed", "cfg": cfg, "threads": threads}
+
+
+def gen_program(rng, focus=None, tier="quick"):
     pg = {"C09": 0.15, "C10": 0.5, "C11": 0.1}.get(focus, 0.25)
-    if rng.random() < pg:
-        return gen_growth(rng)
-    return gen_mixed(rng, focus)
+    k = rng.random()
+    if k < pg:
+        return gen_growth(rng, tier)
+    if k < pg + 0.2:
+        return gen_restart(rng, tier)
+    return gen_mixed(rng, focus, tier)
 
 
 # ---------------------------------------------------------------------------
@@ -279,6 +317,7 @@ def parse(program, log):
     # lifecycle of the controller
     h.stops = []  # effective (call, ret)
     h.starts = []  # effective (call, ret)
+    h.clears = []  # clear() on whatever state: discards queued tasks like stop()
     running = False
     for key in sorted(k for k in h.ops if k[0] == 0):
         op = h.ops[key]
@@ -289,6 +328,8 @@ def parse(program, log):
         elif op["name"] == "stop" and running:
             h.stops.append((op["call"], op["ret"]))
             running = False
+        elif op["name"] == "clear":
+            h.clears.append((op["call"], op["ret"]))
     # stopped periods: [0, first start call), [stop ret, next start call)
     h.stopped = []
     prev = 0
@@ -322,7 +363,7 @@ def exempt(h, t):
     # a task that never began is judged when the epilogue looks at its future ("final"):
     # only a stop() called before that point can have discarded it
     b = t["begins"][0] if t["begins"] else t.get("final_idx", INF)
-    for sc, sr in h.stops:
+    for sc, sr in h.stops + h.clears:
         if t["enq_call"] < sr and sc < b:
             return True
     return False
@@ -359,7 +400,7 @@ def analyse(program, log, verdict, thread_errors=()):
     pending = [op for op in h.ops.values() if op["ret"] == INF]
     if verdict is not None and verdict.kind in ("deadlock", "stall"):
         names = sorted(set(op["name"] for op in pending))
-        if any(n in ("stop", "start", "join") for n in names):
+        if any(n in ("stop", "start", "join", "clear") for n in names):
             prop, clause = "C11", "termination"
         else:
             prop, clause = "C09", "termination"
@@ -380,6 +421,9 @@ def analyse(program, log, verdict, thread_errors=()):
                 if a < b < z:
                     v.append(Violation("C09", "no-run-when-stopped", "begin-in-stopped-period",
                                        "task %s began while the pool was stopped" % tid))
+                    if a > 0:
+                        v.append(Violation("C11", "no-task-after-stop", "begin-after-stop-returned",
+                                           "task %s began after stop() had returned and before the pool was started again" % tid))
         fin = h.finals.get(tid)
         if fin is not None and t["accepted"]:
             state, done = fin
@@ -403,7 +447,7 @@ def analyse(program, log, verdict, thread_errors=()):
             v.append(Violation("C09", "faithful-result", "result-raises-other", "result() raised %s" % op["out"]))
         if op["name"] == "enq" and op["out"] and op["out"].startswith("exc:") and op["out"] != "exc:Full":
             v.append(Violation("C09", "accept", "enqueue-raises", "enqueue raised %s" % op["out"]))
-        if op["name"] in ("start", "stop", "join") and op["out"] and op["out"].startswith("exc:"):
+        if op["name"] in ("start", "stop", "join", "clear") and op["out"] and op["out"].startswith("exc:"):
             v.append(Violation("C11", "lifecycle-raises", "%s:%s" % (op["name"], op["out"]),
                                "%s() raised %s" % (op["name"], op["out"])))
     if mx == 1:
@@ -535,11 +579,13 @@ class PoolScenario(object):
     name = "pool"
     props = ("C09", "C10", "C11")
 
-    def __init__(self, focus=None):
+    def __init__(self, focus=None, tier="quick"):
         self.focus = focus
+        self.tier = tier
+        self.args = {"tier": tier, "focus": focus}
 
     def generate(self, rng):
-        return gen_program(rng, self.focus)
+        return gen_program(rng, self.focus, self.tier)
 
     def run(self, program, decider, chooser=None):
         s, run, verdict = poolsim.execute(program, decider)
